@@ -29,25 +29,38 @@ TReg ==
 
 Known(p) == p \in DOMAIN hs
 
+(* Callables the harness did not register (the loop's own deferred set/cancel functors, the       *)
+(* waiter objects of deadline_timer, posted driver functors) are "internal": their queue events  *)
+(* are not handler events; their timers still must not fire early.                               *)
 TEnq ==
     /\ Is("Enq")
     /\ IF ~Known(Ev.p)
-       THEN Ev.why = "defer" /\ Skip                     \* internal functor of the loop itself
-       ELSE \/ (Ev.why = "post" /\ EnqPost(Ev.p, Cls(Ev.ec)) /\ UNCHANGED <<timers, lastFire>>)
-            \/ (Ev.why = "timer_fire" /\ FireTimer(lastFire.id, lastFire.now, Ev.p) /\ lastFire' = [id |-> -1, now |-> 0])
-            \/ (Ev.why = "timer_cancel" /\ Cls(Ev.ec) = 1 /\ CancelTimerHit(lastFire.id, Ev.p) /\ lastFire' = [id |-> -1, now |-> 0])
-            \/ (Ev.why \in {"io_ready", "io_cancel", "io_error", "io_badfd", "io_select_failed"}
-                  /\ EnqIo(Ev.p, Ev.why, Cls(Ev.ec)) /\ UNCHANGED <<timers, lastFire>>)
-    /\ UNCHANGED <<loopTid, stopped, cancelCode, pidOf>>
+       THEN /\ UNCHANGED <<hs, cancelCode, pidOf>>
+            /\ IF Ev.why \in {"timer_fire", "timer_cancel"} /\ lastFire.id \in DOMAIN timers
+               THEN timers' = Without(timers, lastFire.id) /\ lastFire' = [id |-> -1, now |-> 0]
+               ELSE UNCHANGED <<timers, lastFire>>
+       ELSE /\ \/ (Ev.why = "post" /\ EnqPost(Ev.p, Cls(Ev.ec)) /\ UNCHANGED <<timers, lastFire>>)
+               \/ (Ev.why = "timer_fire" /\ FireTimer(lastFire.id, lastFire.now, Ev.p) /\ lastFire' = [id |-> -1, now |-> 0])
+               \/ (Ev.why = "timer_cancel" /\ Cls(Ev.ec) = 1 /\ CancelTimerHit(lastFire.id, Ev.p) /\ lastFire' = [id |-> -1, now |-> 0])
+               \/ (Ev.why \in {"io_ready", "io_cancel", "io_error", "io_badfd", "io_select_failed"}
+                     /\ EnqIo(Ev.p, Ev.why, Cls(Ev.ec)) /\ UNCHANGED <<timers, lastFire>>)
+            /\ UNCHANGED <<cancelCode, pidOf>>
+    /\ UNCHANGED <<loopTid, stopped>>
 
 TSetTimer ==
-    /\ Is("SetTimer") /\ ArmTimer(Ev.p, Ev.id, Ev.dl)
+    /\ Is("SetTimer")
+    /\ IF Known(Ev.p) /\ hs[Ev.p].kind = "timer"
+       THEN ArmTimer(Ev.p, Ev.id, Ev.dl)
+       ELSE /\ Ev.id \notin DOMAIN timers          \* internal timer (deadline_timer's waiter)
+            /\ timers' = [x \in DOMAIN timers \cup {Ev.id} |-> IF x = Ev.id THEN [p |-> Ev.p, dl |-> Ev.dl] ELSE timers[x]]
+            /\ hs' = hs
     /\ UNCHANGED <<loopTid, stopped, cancelCode, pidOf, lastFire>>
 
 (* TimerFire{id,now,dl} immediately precedes its Enq; the deadline logged must be the one armed *)
 TTimerFire ==
     /\ Is("TimerFire")
     /\ Ev.id \in DOMAIN timers /\ timers[Ev.id].dl = Ev.dl
+    /\ Ev.now >= Ev.dl                                  \* never early - registered or internal
     /\ Ev.tid = loopTid
     /\ lastFire' = [id |-> Ev.id, now |-> Ev.now]
     /\ UNCHANGED <<lvars, cancelCode, pidOf>>
@@ -58,11 +71,13 @@ TCancelTimer ==
                    ELSE (Ev.id \notin DOMAIN timers /\ lastFire' = lastFire)
     /\ UNCHANGED <<lvars, cancelCode, pidOf>>
 
-TSetIo == Is("SetIo") /\ ArmIo(Ev.p) /\ UNCHANGED <<timers, loopTid, stopped, cancelCode, pidOf, lastFire>>
+TSetIo == /\ Is("SetIo")
+          /\ (IF Known(Ev.p) THEN ArmIo(Ev.p) ELSE hs' = hs)
+          /\ UNCHANGED <<timers, loopTid, stopped, cancelCode, pidOf, lastFire>>
 
 TDeq ==
     /\ Is("Deq")
-    /\ IF Known(Ev.p)
+    /\ IF Known(Ev.p) /\ hs[Ev.p].kind # "dtimer"
        THEN Dequeue(Ev.p, Ev.tid) /\ Cls(Ev.ec) = hs[Ev.p].code /\ UNCHANGED <<timers, loopTid, stopped>>
        ELSE Ev.tid = loopTid /\ UNCHANGED lvars
     /\ UNCHANGED <<cancelCode, pidOf, lastFire>>
@@ -71,9 +86,17 @@ PidOfH(h) == CHOOSE p \in DOMAIN hs : hs[p].h = h
 TRun ==
     /\ Is("Run")
     /\ \E p \in DOMAIN hs : hs[p].h = Ev.h
-    /\ Run(PidOfH(Ev.h), Ev.h, Ev.cls, Ev.tid)
+    /\ IF hs[PidOfH(Ev.h)].kind = "dtimer"
+       THEN \* handler given to a deadline_timer: reached through the timer's own waiter object, so only the
+            \* harness-level facts are bound: once, on the loop thread, success not before the deadline
+            /\ hs[PidOfH(Ev.h)].st = "reg" /\ Ev.tid = loopTid
+            /\ (Ev.cls = 0 => Ev.t >= Ev.dl)
+            /\ Put(PidOfH(Ev.h), [hs[PidOfH(Ev.h)] EXCEPT !.st = "ran", !.code = Ev.cls])
+       ELSE Run(PidOfH(Ev.h), Ev.h, Ev.cls, Ev.tid)
     /\ Cls(Ev.ec) = Ev.cls
     /\ UNCHANGED <<timers, loopTid, stopped, cancelCode, pidOf, lastFire>>
+
+TDCancel == Is("DCancel") /\ Ev.tid = loopTid /\ Skip
 
 (* loop-internal events: only the thread discipline is a property *)
 TLoopOnly == /\ (Is("RunOne") \/ Is("PollBegin") \/ Is("PollEnd"))
@@ -84,14 +107,14 @@ TStop == Is("Stop") /\ stopped' = TRUE /\ UNCHANGED <<hs, timers, loopTid, cance
 TQuiesce ==
     /\ Is("Quiesce")
     /\ ~stopped
-    /\ AllRan /\ DOMAIN timers = {}
+    /\ AllRan /\ \A id \in DOMAIN timers : ~Known(timers[id].p)
     /\ Ev.reg = Cardinality(DOMAIN hs) /\ Ev.ran = Ev.reg
     /\ Skip
 
 TStopped == Is("Stopped") /\ stopped /\ Skip       \* after stop(): at most once only, nothing more is promised
 
 TraceInit == LInit /\ l = 1 /\ cancelCode = 0 /\ pidOf = <<>> /\ lastFire = [id |-> -1, now |-> 0]
-TraceNext == TReset \/ TLoopThread \/ TReg \/ TEnq \/ TSetTimer \/ TTimerFire \/ TCancelTimer \/ TSetIo
+TraceNext == TReset \/ TLoopThread \/ TReg \/ TEnq \/ TSetTimer \/ TTimerFire \/ TCancelTimer \/ TSetIo \/ TDCancel
              \/ TDeq \/ TRun \/ TLoopOnly \/ TInfo \/ TStop \/ TQuiesce \/ TStopped
 TraceSpec == TraceInit /\ [][TraceNext]_tvars
 =============================================================================
